@@ -302,6 +302,8 @@ OUTSIDE_MODEL = {
     "C01g": "comparator rebuilt on helpers that call math.isclose: not an order-only predicate (shared premise C02.R1)",
     "C02f": "comparator rebuilt on key tuples with `placed_at or math.inf`: tuple slicing and truthiness of a number are outside the order-only model",
     "C04f": "cancel turned into lazy deletion (flag only, purge when the order reaches the top): the removal discipline the rules decide is gone altogether",
+    "C19h": "tick level computed by multiplying with a cached reciprocal of the tick size: whether that equals price / tick_size (bit for bit) is arithmetic, not shape; the corrected version FC19h has the same shape",
+    "C18f": "inheritance rewritten as self-recursion: the rule models the loop form of the chain walk only (the corrected version FC18f is refused in the same way)",
     "C15f": "hook selection memoised per (hook point, time) with invalidation in _add_event: a selection that reads a cache is not the modelled `hooks[None] ++ hooks[time]`",
 }
 
